@@ -25,7 +25,7 @@ CFG = {
             "the integer grid: layouts uniform-small, uniform-wide, clustered, coincident, lattice (elements on the cells' "
             "centre planes), planar, collinear, outlier; 0..60 elements (thorough: ..2000), maximum depth 0..6 and automatic; "
             "per set 3 queries of each kind: containing point, within radius (incl. exact boundary, 0, negative), ray "
-            "(axis-parallel with zero components, one zero component, diagonal, general; lower bound negative / 0 / positive; "
+            "(axis-parallel with zero components, one zero component, diagonal, general, tiny/subnormal components; zero components of either sign in every pattern, also derived by Flip/Scale(-1)/Zero.Sub/Reflect; lower bound negative / 0 / positive; "
             "upper bound cutting the set), traversal with a shrinking upper bound, closest point (vertices, cell centres, "
             "midpoints = ties, faces, outside, points on edge extensions of triangles); every 4th case a BVH over a generated "
             "triangle mesh (random split-axis seed) with one ray, BVHNode.Hit vs HitList.Hit vs exhaustive minimum; "
